@@ -24,10 +24,10 @@ import (
 type StepCfg struct {
 	Name       string   `json:"name"`
 	Depends    []string `json:"depends,omitempty"`
-	Fail       int      `json:"fail,omitempty"` // first Fail attempts fail; -1 always
+	Fail       int      `json:"fail,omitempty"`       // first Fail attempts fail; -1 always
 	CreateFail int      `json:"createFail,omitempty"` // first CreateFail attempts fail before a process exists
-	Unmet      bool     `json:"unmet,omitempty"` // own precondition unmet
-	Limit      int      `json:"limit,omitempty"` // retry limit (RetryPolicy present iff HasRetry)
+	Unmet      bool     `json:"unmet,omitempty"`      // own precondition unmet
+	Limit      int      `json:"limit,omitempty"`      // retry limit (RetryPolicy present iff HasRetry)
 	HasRetry   bool     `json:"retry,omitempty"`
 	IntervalMs int      `json:"intervalMs,omitempty"`
 	CoF        bool     `json:"cof,omitempty"`
@@ -51,8 +51,8 @@ type Config struct {
 	Stop      bool              `json:"stop,omitempty"`     // a thread calls Scheduler.Signal(SIGTERM) at an explored instant
 	Agent     bool              `json:"agent,omitempty"`    // drive the run through a real agent.Agent (setup + scheduler + the /stop path a.signal)
 	CleanupMs int               `json:"maxCleanUpMs,omitempty"`
-	SigTerm   bool              `json:"sigterm,omitempty"` // with Agent+Stop: deliver an OS signal (a.Signal(SIGTERM)) instead of the /stop request
-	Observe   bool              `json:"observe,omitempty"` // C08(a): call Agent.Status() at every decision and check it against the trace
+	SigTerm   bool              `json:"sigterm,omitempty"`  // with Agent+Stop: deliver an OS signal (a.Signal(SIGTERM)) instead of the /stop request
+	Observe   bool              `json:"observe,omitempty"`  // C08(a): call Agent.Status() at every decision and check it against the trace
 	Recorded  []string          `json:"recorded,omitempty"` // retry of a recorded run: recorded status text per step (C10)
 	OutBytes  int               `json:"outBytes,omitempty"` // bytes every attempt prints to stdout (0 = silent)
 	Bound     int               `json:"bound"`
